@@ -164,7 +164,9 @@ impl Response {
         let old_content = self.content.take();
         self.headers.set()
             .ContentType(None)
-            .ContentLength(None);
+            /* back to the state of a new, empty response: without a declared length
+               the client can't find the end of the response on a keep-alive connection */
+            .ContentLength("0");
         old_content
     }
     pub fn without_content(mut self) -> Self {
